@@ -172,8 +172,12 @@ class Oracle:
             self.unordered.discard(int(toks[2]) if name in ("new", "fromvec", "fromiter", "deser", "withcap") else int(toks[1]))
         elif name == "append":
             self.unordered.discard(int(toks[1]))
-        elif name == "clone" and int(toks[1]) in self.unordered:
-            self.unordered.add(int(toks[2]))
+        elif name in ("clone", "clonefrom"):
+            # a clone is exactly as (un)ordered as its source
+            if int(toks[1]) in self.unordered:
+                self.unordered.add(int(toks[2]))
+            else:
+                self.unordered.discard(int(toks[2]))
         elif name == "serde":
             self.unordered.discard(int(toks[3]))
         if fused or out == "unwound":
@@ -543,7 +547,17 @@ class ContentOracle(Oracle):
             return None if self.ents(after, s2) == [] else "append left the other queue non-empty"
         if name in ("clear", "drain"):
             return None if a == [] else "%s left %d elements" % (name, len(a))
-        if name in ("peek", "iter", "intoiter", "sortediter", "sortedvec", "intovec", "eq", "clone",
+        if name == "eq":
+            o = self.ents(before, int(t[2]))
+            if o is not None and before[r][0] == before[int(t[2])][0]:
+                same = {k: p for k, pl, p in b} == {k: p for k, pl, p in o}
+                if out != "bool %d" % (1 if same else 0):
+                    return "eq returned %r for queues whose (item, priority) sets are %s" % (out, "equal" if same else "different")
+        if name in ("clone", "clonefrom") and out == "unit":
+            d = self.ents(after, int(t[2]))
+            if d is not None and sorted(d) != sorted(b):
+                return "%s: the copy holds %s, the source %s" % (name, sorted(d)[:4], sorted(b)[:4])
+        if name in ("peek", "iter", "intoiter", "sortediter", "sortedvec", "intovec", "eq", "clone", "clonefrom",
                     "reserve", "reservex", "tryreserve", "tryreservex", "shrink", "capacity", "convert", "serde"):
             if name == "serde":
                 return None
@@ -566,3 +580,79 @@ for _p, _w in (("C03", ("fault", "wf")), ("C07", ("fault", "wf", "order")), ("C1
                ("C15", ("fault", "wf", "order")), ("C16", ("fault", "wf")), ("C17", ("fault", "wf", "cap")),
                ("C18", ("fault", "wf"))):
     ORACLES[_p] = ContentOracle(_w)
+
+
+# ----------------------------------------------------------------------------- C05: comparison counts
+def lg(n):
+    return n.bit_length() - 1 if n > 0 else 0
+
+
+class CostOracle(Oracle):
+    """comparison counts of the implementation against the proved bounds
+    (the per-operation statements of OpSpec.v: pq_*_stmt / dpq_*_stmt)"""
+
+    SINGLE_PQ = {"push": lambda n: 3 * lg(n + 1) + 4, "pushinc": lambda n: 3 * lg(n + 1) + 5,
+                 "pushdec": lambda n: 3 * lg(n + 1) + 5, "chg": lambda n: 3 * lg(n) + 4,
+                 "chgby": lambda n: 3 * lg(n) + 4, "chgadd": lambda n: 3 * lg(n) + 4,
+                 "remove": lambda n: 3 * lg(n) + 4, "pop": lambda n: 2 * lg(n) + 2,
+                 "popif": lambda n: 2 * lg(n) + 2}
+    SINGLE_DPQ = {"push": lambda n: 9 * lg(n + 1) + 20, "pushinc": lambda n: 9 * lg(n + 1) + 21,
+                  "pushdec": lambda n: 9 * lg(n + 1) + 21, "chg": lambda n: 9 * lg(n) + 20,
+                  "chgby": lambda n: 9 * lg(n) + 20, "chgadd": lambda n: 9 * lg(n) + 20,
+                  "remove": lambda n: 9 * lg(n) + 20, "pop": lambda n: 4 * lg(n) + 9,
+                  "popif": lambda n: 9 * lg(n) + 21}
+    ZERO = ("len", "isempty", "get", "getprio", "getmut", "capacity", "reserve", "reservex", "tryreserve",
+            "tryreservex", "shrink", "clear", "intovec", "clone", "eq", "new", "withcap", "iter",
+            "intoiter", "drain")
+
+    def __init__(self):
+        Oracle.__init__(self, ("fault",))
+
+    def step(self, op, line):
+        before = dict(self.prev)
+        why = Oracle.step(self, op, line)
+        if why:
+            return why
+        out, ticks, regs = split_line(line)
+        t = op.split()
+        if t[0] == "fuse" or out in ("invalid", "unwound") or out.startswith("fault") or ticks < 0:
+            return None
+        name = t[0]
+
+        def size(rs, r):
+            return rs[r][4] if r in rs else 0
+
+        def kind(rs, r):
+            return rs[r][0] if r in rs else None
+        bound = None
+        try:
+            if name in self.ZERO:
+                bound = 0
+            elif name in self.SINGLE_PQ:
+                r = int(t[1])
+                k = kind(before, r)
+                if k is not None:
+                    bound = (self.SINGLE_PQ if k == "pq" else self.SINGLE_DPQ)[name](size(before, r))
+            elif name in ("peek", "peekmut"):
+                r = int(t[1])
+                bound = 1 if (kind(before, r) == "dpq" and t[2] == "max") else 0
+            elif name in ("retain", "retainmut", "itermut", "convert"):
+                r = int(t[1])
+                k = kind(regs, r) or kind(before, r)
+                bound = (4 if k == "pq" else 16) * size(before, r)
+            elif name in ("fromvec", "fromiter", "deser"):
+                r = int(t[2])
+                bound = (4 if t[1] == "pq" else 16) * size(regs, r)
+            elif name == "serde":
+                bound = (4 if t[2] == "pq" else 16) * size(regs, int(t[3]))
+            elif name == "append":
+                r = int(t[1])
+                bound = (4 if kind(before, r) == "pq" else 16) * size(regs, r)
+        except (IndexError, ValueError, KeyError):
+            bound = None
+        if bound is not None and ticks > bound:
+            return "%s made %d priority comparisons; the proved bound for the sizes involved is %d" % (name, ticks, bound)
+        return None
+
+
+ORACLES["C05"] = CostOracle()
